@@ -51,7 +51,37 @@ def c02_jobs(tier):
     return jobs
 
 
+def c03_jobs(tier):
+    q = tier == 'quick'
+    jobs = []
+    nmax = 32 if q else 64
+    for k in (3, 7, 15):
+        for n in range(max(8, k + 1), nmax + 1):
+            if q and n % 2 and n > 20:
+                continue
+            jobs.append(J('root', 'H_C03_binderiv', [n, k]))
+    for d in (1, 2, 8, 16, 32):
+        for n in range(max(16, d + 1), nmax + 1):
+            if q and n % 2 and n > 20:
+                continue
+            jobs.append(J('root', 'H_C03_autocorr', [n, d]))
+    cmax = 16 if q else 28
+    for n in range(1, cmax + 1):
+        jobs.append(J('root', 'H_C03_cusum_cases', [n]))
+        for fwd in (1, 0):
+            for z in range(1, n + 1):
+                jobs.append(J('root', 'H_C03_cusum', [n, fwd, z]))
+    return jobs
+
+
 PROPS = {
+    'C03': {
+        'jobs': c03_jobs,
+        'bounds': {'quick': 'binary derivative k in {3,7,15}, autocorrelation d in {1,2,8,16,32}: n<=32; cumulative sums n<=16, both directions, every excursion z=1..n (one obligation per z, exhaustiveness of the split proven)',
+                   'thorough': 'binary derivative / autocorrelation n<=64; cumulative sums n<=28'},
+        'outside': 'n above the bounds (the standard minimum is 100 bits: the same code is exercised at smaller n); binary64 rounding; erfc/erf accuracy',
+        'assumptions': ['float64 tails as exact reals; erfc/erf uninterpreted on symbolic arguments, libm on concrete arguments', 'cumulative sums: series limits follow the NIST/GM-T integer (truncating) arithmetic'],
+    },
     'C02': {
         'jobs': c02_jobs,
         'bounds': {'quick': 'runs 2<=n<=32 (+ constant sequences n<=8 concretely); runs distribution n in {100,101,128}; longest run n in {128,131,136} x {ones,zeros}; regime selection all int64 n; class-probability tables vs exact recurrence',
